@@ -1,0 +1,27 @@
+//go:build verif
+
+package uci
+
+import "sync/atomic"
+
+// This file is only compiled with the `verif` build tag. It lets an external
+// verification harness perturb the schedule of the driver's goroutines: the
+// function installed with VerifSetSched is called at named points of the
+// input-reader, command-handler, output-writer and interrupt goroutines.
+
+var verifSched atomic.Pointer[func(point string)]
+
+// VerifSetSched installs (or with nil removes) the scheduling callback.
+func VerifSetSched(f func(point string)) {
+	if f == nil {
+		verifSched.Store(nil)
+		return
+	}
+	verifSched.Store(&f)
+}
+
+func verifPoint(point string) {
+	if f := verifSched.Load(); f != nil {
+		(*f)(point)
+	}
+}
